@@ -47,9 +47,9 @@ end
 
 def SimC (code : List Instr) (s : St) (rs : Ref.St) (env : Nat) (res : Ref.R Val) : Prop :=
   match res with
-  | .ok v rs' => ∃ s', ReachE code.length s s' ∧ Lands code.length v s s' ∧ RelC s' rs' env ∧ FramesExt rs rs'
+  | .ok v rs' => ∃ s', ReachX s s' ∧ Lands code.length v s s' ∧ RelC s' rs' env ∧ FramesExt rs rs'
       ∧ Frame s s' ∧ Clean v
-  | .err rs' => FailsE code.length s rs'.trace
+  | .err rs' => FailsX s rs'.trace
   | .timeout => True
   | .brk _ _ => False
   | .cont _ _ => False
@@ -57,9 +57,9 @@ def SimC (code : List Instr) (s : St) (rs : Ref.St) (env : Nat) (res : Ref.R Val
 /-- code that leaves no value (the bindings of `letseq`) -/
 def SimCU (code : List Instr) (s : St) (rs : Ref.St) (env : Nat) (res : Ref.R Unit) : Prop :=
   match res with
-  | .ok _ rs' => ∃ s', ReachE code.length s s' ∧ Moved code.length s s' ∧ RelC s' rs' env ∧ FramesExt rs rs'
+  | .ok _ rs' => ∃ s', ReachX s s' ∧ Moved code.length s s' ∧ RelC s' rs' env ∧ FramesExt rs rs'
       ∧ Frame s s'
-  | .err rs' => FailsE code.length s rs'.trace
+  | .err rs' => FailsX s rs'.trace
   | .timeout => True
   | .brk _ _ => False
   | .cont _ _ => False
@@ -67,10 +67,10 @@ def SimCU (code : List Instr) (s : St) (rs : Ref.St) (env : Nat) (res : Ref.R Un
 /-- code that pushes a list of values, first value deepest (the initialisers of `let`) -/
 def SimCL (code : List Instr) (s : St) (rs : Ref.St) (env : Nat) (res : Ref.R (List Val)) : Prop :=
   match res with
-  | .ok vs rs' => ∃ s', ReachE code.length s s' ∧ fnOf s' s'.curfunc = fnOf s s.curfunc
+  | .ok vs rs' => ∃ s', ReachX s s' ∧ fnOf s' s'.curfunc = fnOf s s.curfunc
       ∧ s'.pc = s.pc + (code.length : Int) ∧ s'.data = vs.reverse.map some ++ s.data
       ∧ RelC s' rs' env ∧ FramesExt rs rs' ∧ Frame s s' ∧ ∀ v ∈ vs, Clean v
-  | .err rs' => FailsE code.length s rs'.trace
+  | .err rs' => FailsX s rs'.trace
   | .timeout => True
   | .brk _ _ => False
   | .cont _ _ => False
@@ -436,7 +436,7 @@ theorem compile_ne_nil_Fc {e : Expr} (he : Fc e = true) {isFn c gs r}
 
 theorem simC_push {s : St} {rs : Ref.St} {env : Nat} {pre post : List Instr} (v : Val) (hv : Clean v)
     (hrel : RelC s rs env) (h : Seg s pre [.push v] post) : SimC [.push v] s rs env (.ok v rs) :=
-  ⟨s.jmp (s.pc + 1) (some v :: s.data), (reach_push h.head).toE, ⟨rfl, by simp, rfl⟩, hrel.jmp _ _,
+  ⟨s.jmp (s.pc + 1) (some v :: s.data), (reach_push h.head).toX, ⟨rfl, by simp, rfl⟩, hrel.jmp _ _,
     FramesExt.refl rs, Frame.jmp _ _ _, hv⟩
 
 /-- what a lookup finds is a binding of the frame it names -/
@@ -474,13 +474,13 @@ theorem simC_sym {s : St} {rs : Ref.St} {env : Nat} {pre post : List Instr} (x :
     simp only [SimC]
     have : Fails 1 s s.trace := Fails.step h.head (fun f => by rw [exec_envToStack, hl])
     rw [hrel.trace] at this
-    exact this.toE
+    exact this.toX
   | some r =>
     obtain ⟨id, v⟩ := r
     rw [hr] at hl
     simp only [SimC]
     exact ⟨s.jmp (s.pc + 1) (some v :: s.data),
-      (Reach.step h.head (fun f => by rw [exec_envToStack, hl])).toE,
+      (Reach.step h.head (fun f => by rw [exec_envToStack, hl])).toX,
       ⟨rfl, by simp, rfl⟩, hrel.jmp _ _, FramesExt.refl rs, Frame.jmp _ _ _,
       hrel.clean.1 id x v (ref_lookupIn_sound _ x _ _ id v hr)⟩
 
@@ -531,7 +531,7 @@ theorem psp_stepC {s₁ : St} {rs₁ : Ref.St} {env : Nat} {P Q : List Instr} {x
 /-- `def x e`, after `e` has produced `v` -/
 theorem simC_def_tail {s s₁ : St} {rs rs₁ : Ref.St} {env : Nat} {pre post ce : List Instr} {x : String} {v : Val}
     (h : Seg s pre (ce ++ [.dup, .popStackPutEnv x]) post) (hx : okBinder x = true)
-    (r1 : ReachE ce.length s s₁) (l1 : Lands ce.length v s s₁) (rel1 : RelC s₁ rs₁ env) (ext1 : FramesExt rs rs₁)
+    (r1 : ReachX s s₁) (l1 : Lands ce.length v s s₁) (rel1 : RelC s₁ rs₁ env) (ext1 : FramesExt rs rs₁)
     (fr1 : Frame s s₁) (hcv : Clean v) :
     SimC (ce ++ [.dup, .popStackPutEnv x]) s rs env
       (match Ref.define rs₁ env x v with | some s' => .ok v s' | none => .err rs₁) := by
@@ -542,12 +542,12 @@ theorem simC_def_tail {s s₁ : St} {rs rs₁ : Ref.St} {env : Nat} {pre post ce
   | none =>
     rw [hdef] at hp
     simp only
-    exact (FailsE.of_reach (r1.trans r2.toE) hp.toE).mono (by rw [hlen]; exact Nat.le_refl _)
+    exact (FailsX.of_reach (r1.trans r2.toX) hp.toX)
   | some rs₂ =>
     rw [hdef] at hp
     obtain ⟨r3, rel3, ext3⟩ := hp
     simp only
-    refine ⟨_, ((r1.trans r2.toE).trans r3.toE).mono (by rw [hlen]; exact Nat.le_refl _), ⟨l1.fn, ?_, rfl⟩, rel3,
+    refine ⟨_, ((r1.trans r2.toX).trans r3.toX), ⟨l1.fn, ?_, rfl⟩, rel3,
       ext1.trans ext3, fr1.trans ((Frame.jmp _ _ _).trans ((Frame.jmp _ _ _).trans (Frame.bind _ _ _ _))), hcv⟩
     show s₁.pc + 1 + 1 = _
     rw [l1.pc, hlen]; push_cast; omega
@@ -555,7 +555,7 @@ theorem simC_def_tail {s s₁ : St} {rs rs₁ : Ref.St} {env : Nat} {pre post ce
 /-- `set x e`, after `e` has produced `v` -/
 theorem simC_set_tail {s s₁ : St} {rs rs₁ : Ref.St} {env : Nat} {pre post ce : List Instr} {x : String} {v : Val}
     (h : Seg s pre (ce ++ [.dup, .update x]) post) (hxb : okBinder x = true)
-    (r1 : ReachE ce.length s s₁) (l1 : Lands ce.length v s s₁) (rel1 : RelC s₁ rs₁ env) (ext1 : FramesExt rs rs₁)
+    (r1 : ReachX s s₁) (l1 : Lands ce.length v s s₁) (rel1 : RelC s₁ rs₁ env) (ext1 : FramesExt rs rs₁)
     (fr1 : Frame s s₁) (hcv : Clean v) :
     SimC (ce ++ [.dup, .update x]) s rs env
       (match Ref.lookup rs₁ env x with
@@ -587,7 +587,7 @@ theorem simC_set_tail {s s₁ : St} {rs rs₁ : Ref.St} {env : Nat} {pre post ce
     refine ⟨(s₁.jmp (s₁.pc + 1 + 1) (some v :: s.data)).bind id x v, ?_, ⟨l1.fn, ?_, rfl⟩,
       (rel1.jmp _ _).bind id hid hxb hcv, ext1.trans (FramesExt.setVar _ _ _ _),
       fr1.trans ((Frame.jmp _ _ _).trans (Frame.bind _ _ _ _)), hcv⟩
-    · exact ((r1.trans r2.toE).trans (Reach.step a3 hx').toE).mono (by rw [hlen]; exact Nat.le_refl _)
+    · exact ((r1.trans r2.toX).trans (Reach.step a3 hx').toX)
     · show s₁.pc + 1 + 1 = _
       rw [l1.pc, hlen]; push_cast; omega
   cases hl : Ref.lookup rs₁ env x with
@@ -610,33 +610,32 @@ theorem simC_set_tail {s s₁ : St} {rs rs₁ : Ref.St} {env : Nat} {pre post ce
 
 /-! ## Sequencing -/
 
-theorem SimC.seq {code c₂ : List Instr} {s s₁' : St} {rs rs₁ : Ref.St} {env K₁ k : Nat} {res : Ref.R Val}
-    (hreach : ReachE K₁ s s₁') (hmoved : Moved k s s₁') (hext : FramesExt rs rs₁) (hframe : Frame s s₁')
-    (h₂ : SimC c₂ s₁' rs₁ env res)
-    (hK : K₁ + c₂.length ≤ code.length) (hk : k + c₂.length = code.length) : SimC code s rs env res := by
+theorem SimC.seq {code c₂ : List Instr} {s s₁' : St} {rs rs₁ : Ref.St} {env k : Nat} {res : Ref.R Val}
+    (hreach : ReachX s s₁') (hmoved : Moved k s s₁') (hext : FramesExt rs rs₁) (hframe : Frame s s₁')
+    (h₂ : SimC c₂ s₁' rs₁ env res) (hk : k + c₂.length = code.length) : SimC code s rs env res := by
   cases res with
   | ok v rs' =>
     obtain ⟨s₂, r, l, rel, ext, fr, hcl⟩ := h₂
-    exact ⟨s₂, (hreach.trans r).mono hK, hk ▸ hmoved.lands l, rel, hext.trans ext, hframe.trans fr, hcl⟩
-  | err rs' => exact (FailsE.of_reach hreach h₂).mono hK
+    exact ⟨s₂, (hreach.trans r), hk ▸ hmoved.lands l, rel, hext.trans ext, hframe.trans fr, hcl⟩
+  | err rs' => exact (FailsX.of_reach hreach h₂)
   | timeout => trivial
   | brk l rs' => exact h₂
   | cont l rs' => exact h₂
 
 theorem SimC.prefix {code c₁ : List Instr} {s : St} {rs : Ref.St} {env : Nat} {res : Ref.R Val}
-    (h₁ : SimC c₁ s rs env res) (hnot : ∀ v rs', res ≠ .ok v rs') (hK : c₁.length ≤ code.length) :
+    (h₁ : SimC c₁ s rs env res) (hnot : ∀ v rs', res ≠ .ok v rs') :
     SimC code s rs env res := by
   cases res with
   | ok v rs' => exact absurd rfl (hnot v rs')
-  | err rs' => exact FailsE.mono h₁ hK
+  | err rs' => exact h₁
   | timeout => trivial
   | brk l rs' => exact h₁
   | cont l rs' => exact h₁
 
-theorem SimC.cond_exit {p b rest pre post : List Instr} {s s₁' : St} {rs rs₁ : Ref.St} {env K₁ : Nat} {res : Ref.R Val}
+theorem SimC.cond_exit {p b rest pre post : List Instr} {s s₁' : St} {rs rs₁ : Ref.St} {env : Nat} {res : Ref.R Val}
     (h : Seg s pre (p ++ [.branch false (b.length + 2)] ++ b ++ [.jump (rest.length + 1)] ++ rest) post)
-    (hreach : ReachE K₁ s s₁') (hmoved : Moved (p.length + 1) s s₁') (hext : FramesExt rs rs₁) (hframe : Frame s s₁')
-    (h₂ : SimC b s₁' rs₁ env res) (hK : K₁ ≤ p.length + 1) :
+    (hreach : ReachX s s₁') (hmoved : Moved (p.length + 1) s s₁') (hext : FramesExt rs rs₁) (hframe : Frame s s₁')
+    (h₂ : SimC b s₁' rs₁ env res) :
     SimC (p ++ [.branch false (b.length + 2)] ++ b ++ [.jump (rest.length + 1)] ++ rest) s rs env res := by
   have hlen : (p ++ [Instr.branch false (b.length + 2)] ++ b ++ [Instr.jump (rest.length + 1)] ++ rest).length
       = p.length + 1 + b.length + 1 + rest.length := by simp; omega
@@ -645,9 +644,9 @@ theorem SimC.cond_exit {p b rest pre post : List Instr} {s s₁' : St} {rs rs₁
     obtain ⟨s₂, r, l, rel, ext, fr, hcl⟩ := h₂
     have l2 : Lands (p.length + 1 + b.length) v s s₂ := hmoved.lands l
     obtain ⟨r3, l3⟩ := glue_cond_exit h l2
-    exact ⟨_, ((hreach.trans r).trans r3.toE).mono (by rw [hlen]; omega), l3, rel.jmp _ _, hext.trans ext,
+    exact ⟨_, ((hreach.trans r).trans r3.toX), l3, rel.jmp _ _, hext.trans ext,
       (hframe.trans fr).trans (Frame.jmp _ _ _), hcl⟩
-  | err rs' => exact (FailsE.of_reach hreach h₂).mono (by rw [hlen]; omega)
+  | err rs' => exact (FailsX.of_reach hreach h₂)
   | timeout => trivial
   | brk l rs' => exact h₂
   | cont l rs' => exact h₂
@@ -675,12 +674,12 @@ theorem SimC.scoped {inner pre post : List Instr} {s : St} {rs : Ref.St} {env : 
     obtain ⟨hl, hc, ha, hs⟩ := fr3.pushScope_inner
     have hframe : Frame s s3.popScope :=
       ⟨hl, hc, ha, hs, fr3.fnsLen, fr3.fns⟩
-    refine ⟨_, ((r1.toE.trans r).trans r4.toE).mono (by rw [hlen]; omega), l4,
+    refine ⟨_, ((r1.toX.trans r).trans r4.toX), l4,
       ⟨rel3.toRelCore.popScope f hf hp, ?_, rel3.globals, rel3.clean⟩, (FramesExt.newFrame rs env).trans ext3, hframe,
       hcl⟩
     rw [hc]
     exact hrel.fnchain.transfer ⟨[], by rw [hl]; rfl⟩ hframe.fnsLen hframe.fns
-  | err rs3 => exact (FailsE.of_reach r1.toE hin).mono (by rw [hlen]; omega)
+  | err rs3 => exact (FailsX.of_reach r1.toX hin)
   | timeout => trivial
   | brk l rs3 => exact hin
   | cont l rs3 => exact hin
@@ -705,11 +704,11 @@ theorem RelC.of_same {s s' : St} {rs rs' : Ref.St} {env : Nat} (h : RelC s rs en
 /-- `Run` inside a helper function whose code is `code ++ [ret]`: the code lands with `v`, `ret`
 returns to `pc = -1` of the caller, the loop stops there, `Run` pops `v`. -/
 theorem run_helper_ok {s₃ s₄ : St} {code : List Instr} {v : Val} {cf : Nat} {A : List (Option (Nat × Int))}
-    (hseg : Seg s₃ [] code [.ret]) (hr : ReachE code.length s₃ s₄) (hl : Lands code.length v s₃ s₄)
+    (hseg : Seg s₃ [] code [.ret]) (hr : ReachX s₃ s₄) (hl : Lands code.length v s₃ s₄)
     (ha : s₄.addr = some (cf, -1) :: A) :
     ∃ M, ∀ fuel, M ≤ fuel →
       (run fuel).run s₃ = (.ok v, { s₄ with addr := A, curfunc := cf, pc := -1, data := s₃.data }) := by
-  obtain ⟨m, k, hk, H⟩ := hr
+  obtain ⟨K, m, k, hk, H⟩ := hr
   refine ⟨m + k + 4, fun fuel hf => ?_⟩
   obtain ⟨F, rfl⟩ : ∃ F, fuel = ((F + 2) + k) + 1 := ⟨fuel - k - 3, by omega⟩
   have a4 : At s₄ code .ret [] := hseg.landed hl (c₁ := code) (by simp) rfl
@@ -726,9 +725,9 @@ theorem run_helper_ok {s₃ s₄ : St} {code : List Instr} {v : Val} {cf : Nat} 
     run_pure, run_popData]
 
 /-- `Run` over code that ends in a script error -/
-theorem run_of_failsE {s : St} {K : Nat} {tr : List String} (h : FailsE K s tr) :
+theorem run_of_failsE {s : St} {tr : List String} (h : FailsX s tr) :
     ∃ M, ∀ fuel, M ≤ fuel → ∃ sf, (run fuel).run s = (.error .err, sf) ∧ sf.trace = tr := by
-  obtain ⟨k, hk, m, H⟩ := h
+  obtain ⟨K, k, hk, m, H⟩ := h
   refine ⟨m + k + 1, fun fuel hf => ?_⟩
   obtain ⟨f, rfl⟩ : ∃ f, fuel = (f + k) + 1 := ⟨fuel - k - 1, by omega⟩
   obtain ⟨sf, hrun, htr⟩ := H f (by omega) (capOf s)
@@ -1105,7 +1104,7 @@ theorem simC_call {m : Nat} (hA : CClaimA (m + 1)) (h : String) (hh : h ∈ foBu
       have hfnF : fnOf sF sF.curfunc = fnOf s s.curfunc := by
         show s3.fns.getD s1.curfunc {} = _
         rw [hfns, fr1.curfunc]; exact fr1.fns _ hcurlt
-      refine ⟨sF, ReachE.step hseg.head (M + 3) hx, ⟨hfnF, by show s1.pc + 1 = _; rw [hp1]; simp, rfl⟩, hrelF,
+      refine ⟨sF, ReachX.step hseg.head (M + 3) hx, ⟨hfnF, by show s1.pc + 1 = _; rw [hp1]; simp, rfl⟩, hrelF,
         ext1.trans (fun i fr hf => ⟨fr, by rw [hfr]; exact hf, rfl⟩),
         ⟨hlin.trans fr1.linear, fr1.curfunc, fr1.addr, hsus.trans fr1.susp,
           by show s.fns.length ≤ s3.fns.length; rw [hfns]; exact fr1.fnsLen,
@@ -1132,7 +1131,7 @@ theorem simC_call {m : Nat} (hA : CClaimA (m + 1)) (h : String) (hh : h ∈ foBu
         have hfo : foResult h vs (inBuiltin s1 s.data) = (.error .err, inBuiltin s1 s.data) := by
           unfold foResult; rw [if_neg ht, hheapb, hp]
         simp only
-        refine FailsE.step hseg.head (M + 3) (fun f hf => ?_)
+        refine FailsX.step hseg.head (M + 3) (fun f hf => ?_)
         obtain ⟨G, rfl⟩ : ∃ G, f = G + 3 := ⟨f - 3, by omega⟩
         refine ⟨_, by rw [hexec (G + 1), run_bind, hM (G + 1 + 1) (by omega)]; simp only; rw [hlen, hcu G, hfo], ?_⟩
         show ((restore (capPopped s1 s.data)).run (inBuiltin s1 s.data)).2.trace = _
@@ -1141,7 +1140,7 @@ theorem simC_call {m : Nat} (hA : CClaimA (m + 1)) (h : String) (hh : h ∈ foBu
     rw [h1] at hprep
     obtain ⟨M, hM⟩ := hprep
     simp only
-    refine FailsE.step hseg.head (M + 2) (fun f hf => ?_)
+    refine FailsX.step hseg.head (M + 2) (fun f hf => ?_)
     obtain ⟨F, rfl⟩ : ∃ F, f = F + 2 := ⟨f - 2, by omega⟩
     obtain ⟨se, hse, htr⟩ := hM (F + 1) (by omega)
     exact ⟨{ se with data := truncate se.data s.data.length }, by rw [hexec F, run_bind, hse], htr⟩
@@ -1222,8 +1221,8 @@ theorem cclaimN_succ {n : Nat} (hE : CClaimE n) (hN : CClaimN n) : CClaimN (n + 
           obtain ⟨r2, m2⟩ := glue_pop hseg l1
           have ih2 := hN (e' :: es') (by simp) hes.2 isFn c oldtail gs1 (rb, gs2) hb hfn _ rs1 env _ post (rel1.jmp _ _)
             (hseg.moved m2 (c₁ := ra.1 ++ [.pop]) (c₂ := rb.1) (post' := post) rfl (by simp))
-          exact SimC.seq (r1.trans r2.toE) m2 ext1 (fr1.trans (Frame.jmp _ _ _)) ih2 (by lenarith) (by lenarith)
-        | err rs1 => rw [h1] at ih; exact SimC.prefix ih (fun _ _ hh => by cases hh) (by lenarith)
+          exact SimC.seq (r1.trans r2.toX) m2 ext1 (fr1.trans (Frame.jmp _ _ _)) ih2 (by lenarith)
+        | err rs1 => rw [h1] at ih; exact SimC.prefix ih (fun _ _ hh => by cases hh)
         | timeout => trivial
         | brk l rs1 => rw [h1] at ih; exact ih.elim
         | cont l rs1 => rw [h1] at ih; exact ih.elim
@@ -1236,7 +1235,7 @@ theorem cclaimL_succ {n : Nat} (hE : CClaimE n) (hL : CClaimL n) : CClaimL (n + 
   | [] =>
     rw [compileBinds] at hc; simp only [g_pure_ok] at hc; subst hc
     rw [Ref.evalLetSeq]
-    · exact ⟨s, ReachE.refl s, Moved.refl s, hrel, FramesExt.refl rs, Frame.refl s⟩
+    · exact ⟨s, ReachX.refl s, Moved.refl s, hrel, FramesExt.refl rs, Frame.refl s⟩
     · omega
   | (x, e) :: bs' =>
     rw [FcBinds] at hbs
@@ -1262,7 +1261,7 @@ theorem cclaimL_succ {n : Nat} (hE : CClaimE n) (hL : CClaimL n) : CClaimL (n + 
       | none =>
         rw [hdef] at hp
         simp only
-        exact (FailsE.of_reach r1 hp.toE).mono (by lenarith)
+        exact (FailsX.of_reach r1 hp.toX)
       | some rs2 =>
         rw [hdef] at hp
         obtain ⟨r2, rel2, ext2⟩ := hp
@@ -1275,15 +1274,15 @@ theorem cclaimL_succ {n : Nat} (hE : CClaimE n) (hL : CClaimL n) : CClaimL (n + 
         | ok u rs3 =>
           rw [h2] at ih2
           obtain ⟨s3, r3, m3, rel3, ext3, fr3⟩ := ih2
-          exact ⟨s3, ((r1.trans r2.toE).trans r3).mono (by lenarith),
+          exact ⟨s3, ((r1.trans r2.toX).trans r3),
             ⟨m3.fn.trans m2.fn, by rw [m3.pc, m2.pc]; simp only [List.length_append, List.length_cons, List.length_nil]; push_cast; omega,
               m3.data.trans m2.data⟩, rel3, (ext1.trans ext2).trans ext3,
             (fr1.trans ((Frame.jmp _ _ _).trans (Frame.bind _ _ _ _))).trans fr3⟩
-        | err rs3 => rw [h2] at ih2; exact (FailsE.of_reach (r1.trans r2.toE) ih2).mono (by lenarith)
+        | err rs3 => rw [h2] at ih2; exact (FailsX.of_reach (r1.trans r2.toX) ih2)
         | timeout => trivial
         | brk l rs3 => rw [h2] at ih2; exact ih2.elim
         | cont l rs3 => rw [h2] at ih2; exact ih2.elim
-    | err rs1 => rw [h1] at ih; exact FailsE.mono ih (by lenarith)
+    | err rs1 => rw [h1] at ih; exact ih
     | timeout => trivial
     | brk l rs1 => rw [h1] at ih; exact ih.elim
     | cont l rs1 => rw [h1] at ih; exact ih.elim
@@ -1295,7 +1294,7 @@ theorem cclaimP_succ {n : Nat} (hE : CClaimE n) (hP : CClaimP n) : CClaimP (n + 
     rw [compileBinds] at hc; simp only [g_pure_ok] at hc; subst hc
     simp only [List.map_nil]
     rw [Ref.evalList]
-    · exact ⟨s, ReachE.refl s, rfl, by simp, by simp, hrel, FramesExt.refl rs, Frame.refl s, fun v hv => by cases hv⟩
+    · exact ⟨s, ReachX.refl s, rfl, by simp, by simp, hrel, FramesExt.refl rs, Frame.refl s, fun v hv => by cases hv⟩
     · omega
   | (x, e) :: bs' =>
     rw [FcBinds] at hbs
@@ -1319,18 +1318,18 @@ theorem cclaimP_succ {n : Nat} (hE : CClaimE n) (hP : CClaimP n) : CClaimP (n + 
       | ok vs rs2 =>
         rw [h2] at ih2
         obtain ⟨s2, r2, hfn2, hpc2, hdata2, rel2, ext2, fr2, hcl2⟩ := ih2
-        refine ⟨s2, (r1.trans r2).mono (by lenarith), hfn2.trans l1.fn, ?_, ?_, rel2, ext1.trans ext2, fr1.trans fr2,
+        refine ⟨s2, (r1.trans r2), hfn2.trans l1.fn, ?_, ?_, rel2, ext1.trans ext2, fr1.trans fr2,
           fun w hw => ?_⟩
         · rw [hpc2, l1.pc]; simp only [List.length_append]; push_cast; omega
         · rw [hdata2, l1.data]; simp
         · rcases List.mem_cons.mp hw with rfl | hw
           · exact hcl1
           · exact hcl2 w hw
-      | err rs2 => rw [h2] at ih2; exact (FailsE.of_reach r1 ih2).mono (by lenarith)
+      | err rs2 => rw [h2] at ih2; exact (FailsX.of_reach r1 ih2)
       | timeout => trivial
       | brk l rs2 => rw [h2] at ih2; exact ih2.elim
       | cont l rs2 => rw [h2] at ih2; exact ih2.elim
-    | err rs1 => rw [h1] at ih; exact FailsE.mono ih (by lenarith)
+    | err rs1 => rw [h1] at ih; exact ih
     | timeout => trivial
     | brk l rs1 => rw [h1] at ih; exact ih.elim
     | cont l rs1 => rw [h1] at ih; exact ih.elim
@@ -1341,7 +1340,7 @@ theorem cclaimV_succ {n : Nat} (hE : CClaimE n) (hV : CClaimV n) : CClaimV (n + 
   | [] =>
     rw [compileAll] at hc; simp only [g_pure_ok] at hc; subst hc
     rw [Ref.evalList]
-    · exact ⟨s, ReachE.refl s, rfl, by simp, by simp, hrel, FramesExt.refl rs, Frame.refl s, fun v hv => by cases hv⟩
+    · exact ⟨s, ReachX.refl s, rfl, by simp, by simp, hrel, FramesExt.refl rs, Frame.refl s, fun v hv => by cases hv⟩
     · omega
   | e :: es' =>
     rw [FcList] at hes
@@ -1362,18 +1361,18 @@ theorem cclaimV_succ {n : Nat} (hE : CClaimE n) (hV : CClaimV n) : CClaimV (n + 
       | ok vs rs2 =>
         rw [h2] at ih2
         obtain ⟨s2, r2, hfn2, hpc2, hdata2, rel2, ext2, fr2, hcl2⟩ := ih2
-        refine ⟨s2, (r1.trans r2).mono (by lenarith), hfn2.trans l1.fn, ?_, ?_, rel2, ext1.trans ext2, fr1.trans fr2,
+        refine ⟨s2, (r1.trans r2), hfn2.trans l1.fn, ?_, ?_, rel2, ext1.trans ext2, fr1.trans fr2,
           fun w hw => ?_⟩
         · rw [hpc2, l1.pc]; simp only [List.length_append]; push_cast; omega
         · rw [hdata2, l1.data]; simp
         · rcases List.mem_cons.mp hw with rfl | hw
           · exact hcl1
           · exact hcl2 w hw
-      | err rs2 => rw [h2] at ih2; exact (FailsE.of_reach r1 ih2).mono (by lenarith)
+      | err rs2 => rw [h2] at ih2; exact (FailsX.of_reach r1 ih2)
       | timeout => trivial
       | brk l rs2 => rw [h2] at ih2; exact ih2.elim
       | cont l rs2 => rw [h2] at ih2; exact ih2.elim
-    | err rs1 => rw [h1] at ih; exact FailsE.mono ih (by lenarith)
+    | err rs1 => rw [h1] at ih; exact ih
     | timeout => trivial
     | brk l rs1 => rw [h1] at ih; exact ih.elim
     | cont l rs1 => rw [h1] at ih; exact ih.elim
@@ -1406,8 +1405,8 @@ theorem cclaimB_succ {n : Nat} (hE : CClaimE n) (hB : CClaimB n) : CClaimB (n + 
           obtain ⟨r2, m2⟩ := glue_pop hseg l1
           have ih2 := hB (e' :: es') (by simp) hes.2 isFn c gs1 (rb, gs2) hb hfn _ rs1 env _ post (rel1.jmp _ _)
             (hseg.moved m2 (c₁ := ra.1 ++ [.pop]) (c₂ := rb.1) (post' := post) rfl (by simp))
-          exact SimC.seq (r1.trans r2.toE) m2 ext1 (fr1.trans (Frame.jmp _ _ _)) ih2 (by lenarith) (by lenarith)
-        | err rs1 => rw [h1] at ih; exact SimC.prefix ih (fun _ _ hh => by cases hh) (by lenarith)
+          exact SimC.seq (r1.trans r2.toX) m2 ext1 (fr1.trans (Frame.jmp _ _ _)) ih2 (by lenarith)
+        | err rs1 => rw [h1] at ih; exact SimC.prefix ih (fun _ _ hh => by cases hh)
         | timeout => trivial
         | brk l rs1 => rw [h1] at ih; exact ih.elim
         | cont l rs1 => rw [h1] at ih; exact ih.elim
@@ -1445,15 +1444,15 @@ theorem cclaimC_succ {n : Nat} (hE : CClaimE n) (hC : CClaimC n) : CClaimC (n + 
           (hseg.moved m2 (c₁ := rp.1 ++ [.branch false (rb.1.length + 2)]) (c₂ := rb.1)
             (post' := [.jump ((asmCond rest rd.1.1).length + 1)] ++ asmCond rest rd.1.1 ++ post)
             (by simp) (by simp))
-        exact SimC.cond_exit hseg (r1.trans r2.toE) m2 ext1 (fr1.trans (Frame.jmp _ _ _)) ih2 (Nat.le_refl _)
+        exact SimC.cond_exit hseg (r1.trans r2.toX) m2 ext1 (fr1.trans (Frame.jmp _ _ _)) ih2
       · rw [if_neg ht]
         obtain ⟨r2, m2⟩ := glue_brn_taken hseg l1 (by simpa using ht)
         have ih2 := hC arms' d harms.2 hd isFn c gs (rest, gs1) gs0 rd hrest hcd hfn _ rs1 env _ post (rel1.jmp _ _)
           (hseg.moved m2 (c₁ := rp.1 ++ [.branch false (rb.1.length + 2)] ++ rb.1
               ++ [.jump ((asmCond rest rd.1.1).length + 1)]) (c₂ := asmCond rest rd.1.1) (post' := post)
             (by simp) (by lenarith))
-        exact SimC.seq (r1.trans r2.toE) m2 ext1 (fr1.trans (Frame.jmp _ _ _)) ih2 (by lenarith) (by lenarith)
-    | err rs1 => rw [h1] at ih; exact SimC.prefix ih (fun _ _ hh => by cases hh) (by lenarith)
+        exact SimC.seq (r1.trans r2.toX) m2 ext1 (fr1.trans (Frame.jmp _ _ _)) ih2 (by lenarith)
+    | err rs1 => rw [h1] at ih; exact SimC.prefix ih (fun _ _ hh => by cases hh)
     | timeout => trivial
     | brk l rs1 => rw [h1] at ih; exact ih.elim
     | cont l rs1 => rw [h1] at ih; exact ih.elim
@@ -1502,14 +1501,14 @@ theorem cclaimS_succ {n : Nat} (hE : CClaimE n) (hS : CClaimS n) : CClaimS (n + 
           by_cases ht : (truthy v1 == isOr) = true
           · rw [if_pos ht]
             obtain ⟨r2, l2⟩ := glue_sc_stop hseg l1 (by simpa using ht)
-            exact ⟨_, (r1.trans r2.toE).mono (by lenarith), l2, rel1.jmp _ _, ext1, fr1.trans (Frame.jmp _ _ _), hcl1⟩
+            exact ⟨_, (r1.trans r2.toX), l2, rel1.jmp _ _, ext1, fr1.trans (Frame.jmp _ _ _), hcl1⟩
           · rw [if_neg ht]
             obtain ⟨r2, m2⟩ := glue_sc_go hseg l1 (by simpa using ht)
             have ih2 := hS isOr (e' :: es') hes.2 isFn c gs (rest, gs1) hrest hfn _ rs1 env _ post (rel1.jmp _ _)
               (hseg.moved m2 (c₁ := ra.1 ++ [.dup, .branch isOr ((asmSC isOr rest).length + 2), .pop])
                 (c₂ := asmSC isOr rest) (post' := post) (by simp) (by simp))
-            exact SimC.seq (r1.trans r2.toE) m2 ext1 (fr1.trans (Frame.jmp _ _ _)) ih2 (by lenarith) (by lenarith)
-        | err rs1 => rw [h1] at ih; exact SimC.prefix ih (fun _ _ hh => by cases hh) (by lenarith)
+            exact SimC.seq (r1.trans r2.toX) m2 ext1 (fr1.trans (Frame.jmp _ _ _)) ih2 (by lenarith)
+        | err rs1 => rw [h1] at ih; exact SimC.prefix ih (fun _ _ hh => by cases hh)
         | timeout => trivial
         | brk l rs1 => rw [h1] at ih; exact ih.elim
         | cont l rs1 => rw [h1] at ih; exact ih.elim
@@ -1530,7 +1529,7 @@ def afterBuiltin (s₁ : St) (D : List (Option Val)) (v : Val) (hp : DataHeap) :
 /-- `[e₁ … eₙ]`, after the elements have been pushed: `CallInstr{array, n}` allocates the array -/
 theorem simC_arr_tail {s s₁ : St} {rs rs₁ : Ref.St} {env : Nat} {pre post ca : List Instr} {vs : List Val} {k : Nat}
     (h : Seg s pre (ca ++ [.callArr k]) post) (hk : k = vs.length)
-    (r1 : ReachE ca.length s s₁) (hfn1 : fnOf s₁ s₁.curfunc = fnOf s s.curfunc)
+    (r1 : ReachX s s₁) (hfn1 : fnOf s₁ s₁.curfunc = fnOf s s.curfunc)
     (hpc1 : s₁.pc = s.pc + (ca.length : Int)) (hd1 : s₁.data = vs.reverse.map some ++ s.data)
     (rel1 : RelC s₁ rs₁ env) (ext1 : FramesExt rs rs₁) (fr1 : Frame s s₁) (hclvs : ∀ v ∈ vs, Clean v) :
     SimC (ca ++ [.callArr k]) s rs env
@@ -1550,13 +1549,271 @@ theorem simC_arr_tail {s s₁ : St} {rs rs₁ : Ref.St} {env : Nat} {pre post ca
     rfl
   have hlen : (ca ++ [Instr.callArr k]).length = ca.length + 1 := by simp
   show SimC _ s rs env (.ok (rs₁.heap.alloc vs).1 { rs₁ with heap := (rs₁.heap.alloc vs).2 })
-  refine ⟨_, (r1.trans (ReachE.step a2 2 hx)).mono (by rw [hlen]; exact Nat.le_refl _), ⟨?_, ?_, rfl⟩,
+  refine ⟨_, (r1.trans (ReachX.step a2 2 hx)), ⟨?_, ?_, rfl⟩,
     rel1.of_same rfl rfl rfl rfl rfl rfl rel1.trace ⟨rel1.clean.1, cleanHeap_alloc rel1.clean.2 vs hclvs⟩,
     ext1.trans (fun i fr hf => ⟨fr, hf, rfl⟩),
     fr1.trans ⟨rfl, rfl, rfl, rfl, Nat.le_refl _, fun _ _ => rfl⟩, trivial⟩
   · exact hfn1
   · show s₁.pc + 1 = _
     rw [hpc1, hlen]; push_cast; omega
+
+/-! ## `for` loops (without `break`/`continue`) -/
+
+/-- the layout `GenerateForLoop` produces, with the offsets computed -/
+theorem forCode_eq (L : Nat) (i t s b : List Instr) : forCode L i t s b =
+    [.loopStart L, .addScope, .pushMark L, .label] ++ i ++ [.popUntilMark L, .jump ((s.length : Int) + 3), .label]
+      ++ s ++ [.popUntilMark L, .label] ++ t ++ [.branch false ((b.length : Int) + 4), .label] ++ b
+      ++ [.popUntilMark L, .jump (-((s.length : Int) + t.length + b.length + 6)), .label,
+          .clearMark L, .removeScope, .push .nil] := by
+  unfold forCode
+  simp only [asmFor, List.length_append, List.length_cons, List.length_nil, List.append_assoc, List.cons_append,
+    List.nil_append]
+  have h1 : ((s.length + (0 + 1) : Nat) : Int) + 2 = (s.length : Int) + 3 := by push_cast; omega
+  have h2 : ((b.length + (0 + 1) : Nat) : Int) + 3 = (b.length : Int) + 4 := by push_cast; omega
+  have h3 : ((i.length + (0 + 1 + 1) + 1 + 1 + 1 + 1 : Nat) : Int)
+      - ((i.length + (s.length + (t.length + (b.length + (0 + 1) + 1 + 1) + 1 + 1) + 1 + 1 + 1) + 1 + 1 + 1 + 1 : Nat) : Int)
+      = -((s.length : Int) + t.length + b.length + 6) := by push_cast; omega
+  rw [h1, h2, h3]
+
+/-- `σ` runs inside the compiled function whose code is `full` -/
+structure InFn (σ : St) (full : List Instr) : Prop where
+  user : (fnOf σ σ.curfunc).user = false
+  code : (fnOf σ σ.curfunc).code = full
+
+theorem InFn.of_fn {σ σ' : St} {full} (h : InFn σ full) (hf : fnOf σ' σ'.curfunc = fnOf σ σ.curfunc) : InFn σ' full :=
+  ⟨by rw [hf]; exact h.user, by rw [hf]; exact h.code⟩
+
+theorem InFn.at {σ : St} {full P Q : List Instr} {i : Instr} (h : InFn σ full) (hc : full = P ++ i :: Q)
+    (hp : σ.pc = (P.length : Int)) : At σ P i Q := ⟨h.user, by rw [h.code, hc], hp⟩
+
+theorem InFn.seg {σ : St} {full P c Q : List Instr} (h : InFn σ full) (hc : full = P ++ c ++ Q)
+    (hp : σ.pc = (P.length : Int)) : Seg σ P c Q := ⟨h.user, by rw [h.code, hc], hp⟩
+
+theorem Seg.inFn {σ : St} {P c Q : List Instr} (h : Seg σ P c Q) : InFn σ (P ++ c ++ Q) := ⟨h.user, h.code⟩
+
+/-- a `label` / `loopStart` is a no-op -/
+theorem reachX_label {σ : St} {P Q : List Instr} (a : At σ P .label Q) : ReachX σ (σ.jmp (σ.pc + 1) σ.data) :=
+  (Reach.step a (fun f => exec_label f σ)).toX
+
+/-- the outcome of a piece of loop code that ends in `popUntilMark`: back on the mark -/
+def OnMark {α : Type} (σ : St) (rs : Ref.St) (fr L : Nat) (D : List (Option Val)) (target : Int) (res : Ref.R α) : Prop :=
+  match res with
+  | .ok _ rs' => ∃ σ', ReachX σ σ' ∧ σ'.pc = target ∧ σ'.data = some (.mark L) :: D
+      ∧ fnOf σ' σ'.curfunc = fnOf σ σ.curfunc ∧ RelC σ' rs' fr ∧ FramesExt rs rs' ∧ Frame σ σ'
+  | .err rs' => FailsX σ rs'.trace
+  | .timeout => True
+  | .brk _ _ => False
+  | .cont _ _ => False
+
+/-- code `c` (simulating `res`) followed by `popUntilMark L`, started on the mark -/
+theorem seg_pum {σ : St} {rs : Ref.St} {fr L : Nat} {D : List (Option Val)} {full P c Q : List Instr}
+    {res : Ref.R Val} (hin : InFn σ full) (hc : full = P ++ c ++ (.popUntilMark L :: Q)) (hp : σ.pc = (P.length : Int))
+    (hd : σ.data = some (.mark L) :: D) (hsim : SimC c σ rs fr res) :
+    OnMark σ rs fr L D (σ.pc + (c.length : Int) + 1) res := by
+  cases res with
+  | ok v rs' =>
+    obtain ⟨σ1, r1, l1, rel1, ext1, fr1, hcl⟩ := hsim
+    have a1 : At σ1 (P ++ c) (.popUntilMark L) Q :=
+      (hin.of_fn l1.fn).at (by rw [hc]) (by rw [l1.pc, hp]; simp)
+    have hv : v ≠ .mark L := fun e => by subst e; exact hcl
+    have hx : ∀ f, (exec (f + 1) (.popUntilMark L)).run σ1 = (.ok (), σ1.jmp (σ1.pc + 1) (some (.mark L) :: D)) :=
+      fun f => exec_popUntilMark f L σ1 [some v] D (by rw [l1.data, hd]; rfl) (Or.inr ⟨v, rfl, hv⟩)
+    exact ⟨_, r1.trans (Reach.step a1 hx).toX, by rw [St.jmp_pc, l1.pc], rfl, l1.fn, rel1.jmp _ _, ext1,
+      fr1.trans (Frame.jmp _ _ _)⟩
+  | err rs' => exact hsim
+  | timeout => trivial
+  | brk l rs' => exact hsim
+  | cont l rs' => exact hsim
+
+theorem OnMark.of_reach {α : Type} {σ σ₁ : St} {rs rs₁ : Ref.St} {fr L : Nat} {D : List (Option Val)} {tgt : Int}
+    {res : Ref.R α} (hr : ReachX σ σ₁) (hfn : fnOf σ₁ σ₁.curfunc = fnOf σ σ.curfunc) (hext : FramesExt rs rs₁)
+    (hfr : Frame σ σ₁) (h : OnMark σ₁ rs₁ fr L D tgt res) : OnMark σ rs fr L D tgt res := by
+  cases res with
+  | ok a rs' =>
+    obtain ⟨σ', r, hp, hd, hf, rel, ext, fr'⟩ := h
+    exact ⟨σ', hr.trans r, hp, hd, hf.trans hfn, rel, hext.trans ext, hfr.trans fr'⟩
+  | err rs' => exact FailsX.of_reach hr h
+  | timeout => trivial
+  | brk l rs' => exact h
+  | cont l rs' => exact h
+
+/-- the fixed pieces of the loop layout -/
+abbrev fHd (L : Nat) : List Instr := [.loopStart L, .addScope, .pushMark L, .label]
+abbrev fMid (L : Nat) (cs : List Instr) : List Instr := [.popUntilMark L, .jump ((cs.length : Int) + 3), .label]
+abbrev fBr (cb : List Instr) : List Instr := [.branch false ((cb.length : Int) + 4), .label]
+abbrev fTl (L : Nat) (cs ct cb : List Instr) : List Instr :=
+  [.popUntilMark L, .jump (-((cs.length : Int) + ct.length + cb.length + 6)), .label, .clearMark L, .removeScope, .push .nil]
+
+/-- the whole function around a `for` loop, laid out -/
+def forFull (pre post : List Instr) (L : Nat) (ci ct cs cb : List Instr) : List Instr :=
+  pre ++ (fHd L ++ ci ++ fMid L cs ++ cs ++ [.popUntilMark L, .label] ++ ct ++ fBr cb ++ cb ++ fTl L cs ct cb) ++ post
+
+theorem forFull_eq (pre post : List Instr) (L : Nat) (ci ct cs cb : List Instr) :
+    pre ++ forCode L ci ct cs cb ++ post = forFull pre post L ci ct cs cb := by
+  rw [forCode_eq]; rfl
+
+/-- **One `for` loop from its test label on** (after the initialiser): test, exit branch or body,
+back jump, increment, again — against `Ref.loop`. The VM stands on the test label with the loop's
+stack mark on top of the data stack; it arrives on the end label with the mark on top again. -/
+def CClaimF (n : Nat) : Prop :=
+  ∀ (label : Option String) (test incr : Expr) (body : List Expr), Fc test = true → Fc incr = true → FcList body = true →
+  ∀ (isFn : Nat → Bool) (c : Ctx), c.funcname = "" →
+  ∀ gb rb g2 gt rt g4 gi ri g5, (compileBegin isFn c body).run gb = .ok (rb, g2) →
+    (compile isFn c test).run gt = .ok (rt, g4) → (compile isFn c incr).run gi = .ok (ri, g5) →
+  ∀ (L : Nat) (ci pre post : List Instr) (σ : St) (rs : Ref.St) (fr : Nat) (D : List (Option Val)),
+    InFn σ (forFull pre post L ci rt.1 ri.1 rb.1) →
+    σ.pc = ((pre.length + ci.length + ri.1.length + 8 : Nat) : Int) →
+    σ.data = some (.mark L) :: D → RelC σ rs fr →
+    OnMark σ rs fr L D ((pre.length + ci.length + ri.1.length + rt.1.length + rb.1.length + 13 : Nat) : Int)
+      (Ref.loop n label test incr body fr rs)
+
+/-- the body of a loop followed by `popUntilMark`; the body may be empty -/
+theorem body_pum {n : Nat} (hB : CClaimB n) {body : List Expr} (hbody : FcList body = true) {isFn : Nat → Bool} {c : Ctx}
+    (hfn : c.funcname = "") {gb rb g2} (hcb : (compileBegin isFn c body).run gb = .ok (rb, g2))
+    {σ : St} {rs : Ref.St} {fr L : Nat} {D : List (Option Val)} {full P Q : List Instr}
+    (hin : InFn σ full) (hc : full = P ++ rb.1 ++ (.popUntilMark L :: Q)) (hp : σ.pc = (P.length : Int))
+    (hd : σ.data = some (.mark L) :: D) (hrel : RelC σ rs fr) :
+    OnMark σ rs fr L D (σ.pc + (rb.1.length : Int) + 1) (Ref.evalBegin n body fr rs) := by
+  cases body with
+  | nil =>
+    rw [compileBegin] at hcb; simp only [g_pure_ok] at hcb
+    have hrb : rb.1 = [] := by rw [(Prod.mk.inj hcb).1]
+    cases n with
+    | zero => rw [Ref.evalBegin]; trivial
+    | succ m =>
+      rw [Ref.evalBegin]
+      · have a1 : At σ P (.popUntilMark L) Q := hin.at (by rw [hc, hrb]; simp) hp
+        have hx : ∀ f, (exec (f + 1) (.popUntilMark L)).run σ = (.ok (), σ.jmp (σ.pc + 1) (some (.mark L) :: D)) :=
+          fun f => exec_popUntilMark f L σ [] D (by rw [hd]; rfl) (Or.inl rfl)
+        exact ⟨_, (Reach.step a1 hx).toX, by rw [St.jmp_pc, hrb]; simp, rfl, rfl, hrel.jmp _ _, FramesExt.refl rs,
+          Frame.jmp _ _ _⟩
+      · omega
+  | cons e0 es0 =>
+    exact seg_pum hin hc hp hd
+      (hB (e0 :: es0) (by simp) hbody isFn c gb (rb, g2) hcb hfn σ rs fr P _ hrel (hin.seg (by rw [hc]) hp))
+
+theorem cclaimF_succ {n : Nat} (hE : CClaimE n) (hB : CClaimB n) (hF : CClaimF n) : CClaimF (n + 1) := by
+  intro label test incr body htest hincr hbody isFn c hfn gb rb g2 gt rt g4 gi ri g5 hcb hct hci
+    L ci pre post σ rs fr D hin hpc hd hrel
+  rw [Ref.loop]
+  -- the test label
+  have a0 : At σ (pre ++ fHd L ++ ci ++ fMid L ri.1 ++ ri.1 ++ [.popUntilMark L]) .label
+      (rt.1 ++ fBr rb.1 ++ rb.1 ++ fTl L ri.1 rt.1 rb.1 ++ post) :=
+    hin.at (by simp [forFull]) (by rw [hpc]; simp; omega)
+  have r0 := reachX_label a0
+  -- the test
+  have hseg1 : Seg (σ.jmp (σ.pc + 1) σ.data) (pre ++ fHd L ++ ci ++ fMid L ri.1 ++ ri.1 ++ [.popUntilMark L, .label]) rt.1
+      (fBr rb.1 ++ rb.1 ++ fTl L ri.1 rt.1 rb.1 ++ post) :=
+    (hin.of_fn (σ' := σ.jmp (σ.pc + 1) σ.data) rfl).seg (by simp [forFull]) (by rw [St.jmp_pc, hpc]; simp; omega)
+  have ih1 := hE test htest isFn c gt (rt, g4) hct hfn _ rs fr _ _ (hrel.jmp _ _) hseg1
+  cases h1 : Ref.eval n test fr rs with
+  | ok tv rs1 =>
+    rw [h1] at ih1
+    obtain ⟨σ2, r2, l2, rel2, ext2, fr2, _⟩ := ih1
+    simp only
+    have hin2 : InFn σ2 (forFull pre post L ci rt.1 ri.1 rb.1) := hin.of_fn (l2.fn.trans rfl)
+    have hpc2 : σ2.pc = ((pre.length + ci.length + ri.1.length + rt.1.length + 9 : Nat) : Int) := by
+      rw [l2.pc, St.jmp_pc, hpc]; push_cast; omega
+    have hd2 : σ2.data = some tv :: some (.mark L) :: D := by rw [l2.data, St.jmp_data, hd]
+    have a2 : At σ2 (pre ++ fHd L ++ ci ++ fMid L ri.1 ++ ri.1 ++ [.popUntilMark L, .label] ++ rt.1)
+        (.branch false ((rb.1.length : Int) + 4)) ([.label] ++ rb.1 ++ fTl L ri.1 rt.1 rb.1 ++ post) :=
+      hin2.at (by simp [forFull]) (by rw [hpc2]; simp; omega)
+    have hfr02 : Frame σ σ2 := (Frame.jmp _ _ _).trans fr2
+    by_cases htv : truthy tv = true
+    · -- the body
+      have hnt : (!truthy tv) = false := by rw [htv]; rfl
+      rw [if_neg (by rw [hnt]; decide)]
+      have r3 := (reach_branch_fall a2 hd2 (by rw [htv]; decide)).toX
+      have a3 : At (σ2.jmp (σ2.pc + 1) (some (.mark L) :: D))
+          (pre ++ fHd L ++ ci ++ fMid L ri.1 ++ ri.1 ++ [.popUntilMark L, .label] ++ rt.1
+            ++ [.branch false ((rb.1.length : Int) + 4)]) .label (rb.1 ++ fTl L ri.1 rt.1 rb.1 ++ post) :=
+        (hin2.of_fn (σ' := σ2.jmp (σ2.pc + 1) (some (.mark L) :: D)) rfl).at (by simp [forFull])
+          (by rw [St.jmp_pc, hpc2]; simp; omega)
+      have r4 := reachX_label a3
+      -- σ4: before the body
+      have hin4 : InFn ((σ2.jmp (σ2.pc + 1) (some (.mark L) :: D)).jmp ((σ2.jmp (σ2.pc + 1) (some (.mark L) :: D)).pc + 1)
+          (σ2.jmp (σ2.pc + 1) (some (.mark L) :: D)).data) (forFull pre post L ci rt.1 ri.1 rb.1) := hin2.of_fn rfl
+      have hb := body_pum hB hbody hfn hcb hin4
+        (P := pre ++ fHd L ++ ci ++ fMid L ri.1 ++ ri.1 ++ [.popUntilMark L, .label] ++ rt.1 ++ fBr rb.1)
+        (Q := [.jump (-((ri.1.length : Int) + rt.1.length + rb.1.length + 6)), .label, .clearMark L, .removeScope,
+          .push .nil] ++ post) (D := D) (by simp [forFull]) (by simp only [St.jmp_pc, hpc2]; simp; omega) rfl
+        ((rel2.jmp _ _).jmp _ _)
+      have hreach4 := ((r0.trans r2).trans r3).trans r4
+      have hfr4 : Frame σ ((σ2.jmp (σ2.pc + 1) (some (.mark L) :: D)).jmp ((σ2.jmp (σ2.pc + 1) (some (.mark L) :: D)).pc + 1)
+          (σ2.jmp (σ2.pc + 1) (some (.mark L) :: D)).data) := hfr02.trans ((Frame.jmp _ _ _).trans (Frame.jmp _ _ _))
+      refine OnMark.of_reach hreach4 (l2.fn.trans rfl) ext2 hfr4 ?_
+      cases h2 : Ref.evalBegin n body fr rs1 with
+      | ok vb rs2 =>
+        rw [h2] at hb
+        obtain ⟨σ6, r6, hpc6, hd6, hfn6, rel6, ext6, fr6⟩ := hb
+        simp only
+        have hin6 : InFn σ6 (forFull pre post L ci rt.1 ri.1 rb.1) := hin4.of_fn hfn6
+        have hpc6' : σ6.pc = ((pre.length + ci.length + ri.1.length + rt.1.length + rb.1.length + 12 : Nat) : Int) := by
+          rw [hpc6]; simp only [St.jmp_pc, hpc2]; push_cast; omega
+        -- the back jump
+        have a6 : At σ6 (pre ++ fHd L ++ ci ++ fMid L ri.1 ++ ri.1 ++ [.popUntilMark L, .label] ++ rt.1 ++ fBr rb.1 ++ rb.1
+            ++ [.popUntilMark L]) (.jump (-((ri.1.length : Int) + rt.1.length + rb.1.length + 6)))
+            ([.label, .clearMark L, .removeScope, .push .nil] ++ post) :=
+          hin6.at (by simp [forFull]) (by rw [hpc6']; simp; omega)
+        have r7 := (reach_jump a6 (by rw [hpc6']; push_cast; omega)
+          (by rw [hpc6']; simp only [List.length_append, List.length_cons, List.length_nil]; push_cast; omega)).toX
+        have hpc7 : (σ6.jmp (σ6.pc + -((ri.1.length : Int) + rt.1.length + rb.1.length + 6)) σ6.data).pc
+            = ((pre.length + ci.length + 6 : Nat) : Int) := by rw [St.jmp_pc, hpc6']; push_cast; omega
+        have a7 : At (σ6.jmp (σ6.pc + -((ri.1.length : Int) + rt.1.length + rb.1.length + 6)) σ6.data)
+            (pre ++ fHd L ++ ci ++ [.popUntilMark L, .jump ((ri.1.length : Int) + 3)]) .label
+            (ri.1 ++ [.popUntilMark L, .label] ++ rt.1 ++ fBr rb.1 ++ rb.1 ++ fTl L ri.1 rt.1 rb.1 ++ post) :=
+          (hin6.of_fn (σ' := σ6.jmp (σ6.pc + -((ri.1.length : Int) + rt.1.length + rb.1.length + 6)) σ6.data) rfl).at
+            (by simp [forFull]) (by rw [hpc7]; simp; omega)
+        have r8 := reachX_label a7
+        -- the increment
+        generalize hσ8 : ((σ6.jmp (σ6.pc + -((ri.1.length : Int) + rt.1.length + rb.1.length + 6)) σ6.data).jmp
+          ((σ6.jmp (σ6.pc + -((ri.1.length : Int) + rt.1.length + rb.1.length + 6)) σ6.data).pc + 1)
+          (σ6.jmp (σ6.pc + -((ri.1.length : Int) + rt.1.length + rb.1.length + 6)) σ6.data).data) = σ8 at r8
+        have hin8 : InFn σ8 (forFull pre post L ci rt.1 ri.1 rb.1) := by subst hσ8; exact hin6.of_fn rfl
+        have hpc8 : σ8.pc = ((pre.length + ci.length + 7 : Nat) : Int) := by
+          subst hσ8; rw [St.jmp_pc, hpc7]; push_cast; omega
+        have hd8 : σ8.data = some (.mark L) :: D := by subst hσ8; exact hd6
+        have rel8 : RelC σ8 rs2 fr := by subst hσ8; exact (rel6.jmp _ _).jmp _ _
+        have hfr68 : Frame σ6 σ8 := by subst hσ8; exact (Frame.jmp _ _ _).trans (Frame.jmp _ _ _)
+        have hfn68 : fnOf σ8 σ8.curfunc = fnOf σ6 σ6.curfunc := by subst hσ8; rfl
+        have hseg8 : Seg σ8 (pre ++ fHd L ++ ci ++ fMid L ri.1) ri.1
+            ([.popUntilMark L, .label] ++ rt.1 ++ fBr rb.1 ++ rb.1 ++ fTl L ri.1 rt.1 rb.1 ++ post) :=
+          hin8.seg (by simp [forFull]) (by rw [hpc8]; simp; omega)
+        have ih8 := hE incr hincr isFn c gi (ri, g5) hci hfn σ8 rs2 fr _ _ rel8 hseg8
+        have hs := seg_pum hin8 (P := pre ++ fHd L ++ ci ++ fMid L ri.1) (c := ri.1)
+          (Q := [.label] ++ rt.1 ++ fBr rb.1 ++ rb.1 ++ fTl L ri.1 rt.1 rb.1 ++ post) (by simp [forFull])
+          (by rw [hpc8]; simp; omega) hd8 ih8
+        refine OnMark.of_reach ((r6.trans r7).trans r8) (hfn68.trans hfn6) ext6 (fr6.trans hfr68) ?_
+        cases h3 : Ref.eval n incr fr rs2 with
+        | ok vs rs3 =>
+          rw [h3] at hs
+          obtain ⟨σ10, r10, hpc10, hd10, hfn10, rel10, ext10, fr10⟩ := hs
+          simp only
+          refine OnMark.of_reach r10 hfn10 ext10 fr10 ?_
+          exact hF label test incr body htest hincr hbody isFn c hfn gb rb g2 gt rt g4 gi ri g5 hcb hct hci
+            L ci pre post σ10 rs3 fr D (hin8.of_fn hfn10) (by rw [hpc10, hpc8]; push_cast; omega) hd10 rel10
+        | err rs3 => rw [h3] at hs; exact hs
+        | timeout => trivial
+        | brk l rs3 => rw [h3] at hs; exact hs.elim
+        | cont l rs3 => rw [h3] at hs; exact hs.elim
+      | err rs2 => rw [h2] at hb; exact hb
+      | timeout => trivial
+      | brk l rs2 => rw [h2] at hb; exact hb.elim
+      | cont l rs2 => rw [h2] at hb; exact hb.elim
+    · -- the exit branch
+      have hft : truthy tv = false := by simpa using htv
+      rw [if_pos (by rw [hft]; rfl)]
+      have r3 := (reach_branch_taken a2 hd2 (by rw [hft])
+        (by rw [hpc2]; push_cast; omega)
+        (by rw [hpc2]; simp only [List.length_append, List.length_cons, List.length_nil]; push_cast; omega)).toX
+      exact ⟨_, (r0.trans r2).trans r3, by rw [St.jmp_pc, hpc2]; push_cast; omega, rfl, l2.fn.trans rfl, rel2.jmp _ _, ext2,
+        hfr02.trans (Frame.jmp _ _ _)⟩
+  | err rs1 =>
+    rw [h1] at ih1
+    exact FailsX.of_reach r0 ih1
+  | timeout => trivial
+  | brk l rs1 => rw [h1] at ih1; exact ih1.elim
+  | cont l rs1 => rw [h1] at ih1; exact ih1.elim
 
 /-! ## `let` with distinct names, and the expression step -/
 
@@ -1688,10 +1945,8 @@ theorem cclaimE_letpar {n : Nat} (hB : CClaimB n) (hP : CClaimP n) {bs : List (S
         have ihb := hB body hbody hbl isFn _ gs1 (rb, gs2) hb hfn s3 a _ _ _ rel3a
           (hseg1.moved m3 (c₁ := ra.1 ++ (bs.map (fun p => Instr.popStackPutEnv p.1)).reverse) (c₂ := rb.1)
             (post' := [.removeScope] ++ post) (by simp) (by simp))
-        refine SimC.seq (r2.trans r3.toE) m3 (ext2.trans ext3a) (fr2.trans fr3) ihb ?_ ?_
-        · simp only [List.length_append, List.length_reverse, List.length_map, List.length_zip, hlen, Nat.min_self]
-          omega
-        · simp only [List.length_append, List.length_reverse, List.length_map]
+        refine SimC.seq (r2.trans r3.toX) m3 (ext2.trans ext3a) (fr2.trans fr3) ihb ?_
+        simp only [List.length_append, List.length_reverse, List.length_map]
       | none =>
         rw [hfwd, hbwd] at hrev
         exact hrev.elim
@@ -1703,10 +1958,8 @@ theorem cclaimE_letpar {n : Nat} (hB : CClaimB n) (hP : CClaimP n) {bs : List (S
       | none =>
         rw [hbwd] at hvm
         simp only
-        refine (FailsE.of_reach r2 hvm.toE).mono ?_
-        simp only [List.length_append, List.length_reverse, List.length_map, List.length_zip, hlen, Nat.min_self]
-        omega
-  | err rs2 => rw [h1] at hL; exact FailsE.mono hL (by lenarith)
+        exact FailsX.of_reach r2 hvm.toX
+  | err rs2 => rw [h1] at hL; exact hL
   | timeout => trivial
   | brk l rs2 => rw [h1] at hL; exact hL.elim
   | cont l rs2 => rw [h1] at hL; exact hL.elim
@@ -1762,7 +2015,7 @@ theorem cclaimE_succ {n : Nat} (hE : CClaimE n) (hB : CClaimB n) (hC : CClaimC n
       rw [h1] at ih
       obtain ⟨s1, r1, l1, rel1, ext1, fr1, hcl1⟩ := ih
       exact simC_def_tail hseg he.1 r1 l1 rel1 ext1 fr1 hcl1
-    | err rs1 => rw [h1] at ih; exact SimC.prefix ih (fun _ _ hh => by cases hh) (by lenarith)
+    | err rs1 => rw [h1] at ih; exact SimC.prefix ih (fun _ _ hh => by cases hh)
     | timeout => trivial
     | brk l rs1 => rw [h1] at ih; exact ih.elim
     | cont l rs1 => rw [h1] at ih; exact ih.elim
@@ -1780,7 +2033,7 @@ theorem cclaimE_succ {n : Nat} (hE : CClaimE n) (hB : CClaimB n) (hC : CClaimC n
       rw [h1] at ih
       obtain ⟨s1, r1, l1, rel1, ext1, fr1, hcl1⟩ := ih
       exact simC_set_tail hseg he.1 r1 l1 rel1 ext1 fr1 hcl1
-    | err rs1 => rw [h1] at ih; exact SimC.prefix ih (fun _ _ hh => by cases hh) (by lenarith)
+    | err rs1 => rw [h1] at ih; exact SimC.prefix ih (fun _ _ hh => by cases hh)
     | timeout => trivial
     | brk l rs1 => rw [h1] at ih; exact ih.elim
     | cont l rs1 => rw [h1] at ih; exact ih.elim
@@ -1849,8 +2102,8 @@ theorem cclaimE_succ {n : Nat} (hE : CClaimE n) (hB : CClaimB n) (hC : CClaimC n
       obtain ⟨s2, r2, m2, rel2, ext2, fr2⟩ := hU
       have ihb := hB body hbody hbl isFn _ gs1 (rb, gs2) hb hfn s2 rs2 _ _ _ rel2
         (hseg1.moved m2 (c₁ := ra.1) (c₂ := rb.1) (post' := [.removeScope] ++ post) (by simp) rfl)
-      exact SimC.seq r2 m2 ext2 fr2 ihb (by lenarith) (by lenarith)
-    | err rs2 => rw [h1] at hU; exact FailsE.mono hU (by lenarith)
+      exact SimC.seq r2 m2 ext2 fr2 ihb (by lenarith)
+    | err rs2 => rw [h1] at hU; exact hU
     | timeout => trivial
     | brk l rs2 => rw [h1] at hU; exact hU.elim
     | cont l rs2 => rw [h1] at hU; exact hU.elim
@@ -1867,7 +2120,7 @@ theorem cclaimE_succ {n : Nat} (hE : CClaimE n) (hB : CClaimB n) (hC : CClaimC n
       rw [h1] at ih
       obtain ⟨s1, r1, hfn1, hpc1, hd1, rel1, ext1, fr1, hclvs⟩ := ih
       exact simC_arr_tail hseg (ref_evalList_length _ _ _ _ _ _ h1).symm r1 hfn1 hpc1 hd1 rel1 ext1 fr1 hclvs
-    | err rs1 => rw [h1] at ih; exact FailsE.mono ih (by lenarith)
+    | err rs1 => rw [h1] at ih; exact ih
     | timeout => trivial
     | brk l rs1 => rw [h1] at ih; exact ih.elim
     | cont l rs1 => rw [h1] at ih; exact ih.elim
